@@ -54,7 +54,7 @@ def plan(tier, seed):
 def mandatory_bins(tier):
     b = ["sel_%d_explicit" % s for s in range(4)] + ["sel_%d_no_encryptors" % s for s in range(4)] + ["sel_%d_only_other_selectors" % s for s in range(4)] + ["sel_%d_default_encryptor_object" % s for s in range(4)]
     b += ["scalar_1", "scalar_2", "scalar_n-2", "scalar_n-1", "scalar_2^k", "scalar_2^k-1", "scalar_random", "key_trailing_zero", "key_all_zero", "model_block_opened_by_real_decryptor",
-          "whole_file_with_ecc_block", "published_keys_pinned", "explicit_recipients_created_before_first_default_use", "encryptors_given_as_one_shot_iterator", "encryptors_given_as_generator", "blocks_packed_by_concurrent_threads", "one_recipient_key_object_reused_for_many_blocks"]
+          "whole_file_with_ecc_block", "published_keys_pinned", "explicit_recipients_created_before_first_default_use", "encryptors_given_as_one_shot_iterator", "encryptors_given_as_generator", "blocks_packed_by_concurrent_threads", "one_recipient_key_object_reused_for_many_blocks", "recipient_key_buffer_reused_by_the_caller_afterwards"]
     b += ["invalid:" + c for c in INVALID_CLASSES]
     return b
 
@@ -187,6 +187,34 @@ def run_reuse(ns, ctx, spec):
     sel = spec["i"] % 4
     pub = ns.crypto.create_public_ecc_key_from_der_fmt(ecies.spki_der(ecies.pub_of(priv))) if spec["i"] % 2 == 0 else GB.private_key_obj(ns, priv).public_key
     enc = B.EccEncryptor(sel, pub)
+    # the recipient key read into a buffer the caller goes on using (bytearray, as filled by readinto): the recipient is the key that
+    # was in the buffer when the key object was made - whatever the buffer holds later
+    for variant in range(6):
+        ctx.ev()
+        ctx.bin("recipient_key_buffer_reused_by_the_caller_afterwards")
+        p1 = rng.randrange(1, ecies.P256_N)
+        p2 = rng.randrange(1, ecies.P256_N)
+        buf = bytearray(ecies.spki_der(ecies.pub_of(p1)))
+        rp = {"kind": "reuse", "priv": hex(p1), "sel": sel, "variant": "buffer_reused"}
+        try:
+            pub_b = ns.crypto.create_public_ecc_key_from_der_fmt(buf) if variant % 2 == 0 else ns.plugin.PublicEccKeyProxy.create_from_der_fmt(buf)
+        except Exception as e:
+            ctx.exc(e)
+            ctx.note("recipient_key_in_a_bytearray_refused")
+            continue
+        enc_b = B.EccEncryptor(sel, pub_b)
+        if variant >= 2:
+            buf[:] = ecies.spki_der(ecies.pub_of(p2))  # the next key is read into the same buffer
+        if variant >= 4:
+            buf[:] = bytes(len(buf))
+        key = rng.randbytes(16)
+        try:
+            blk = B.InitEccAuthBlock(sel).pack(key, [enc_b])
+            ctx.mon("pack")
+        except Exception as e:
+            ctx.violation("pack_raises", {"exc": fmt_exc(e), "recipient_key": "made from a bytearray the caller reused afterwards"}, rp)
+            continue
+        check_block(ctx, blk, sel, p1, key, rp, "recipient_key_buffer_reused_by_the_caller")
     for j in range(spec["n"]):
         key = rng.randbytes(16)
         rp = {"kind": "reuse", "priv": hex(priv), "sel": sel, "key": key.hex(), "use_number": j + 1}
